@@ -39,6 +39,7 @@ def dispatch (fields : List String) : Verdict :=
     | _ => handleEval false rest
   | "C05" :: rest => handleC05 rest
   | "C07" :: rest => handleC07 rest
+  | "C20" :: "run" :: rest => handleC10 ("run" :: rest)   -- `-c` through the binary
   | "C20" :: rest => handleC20 rest
   | _ => Verdict.badLine "unknown property tag"
 
